@@ -76,7 +76,7 @@ def check(tier):
         bits = int(si.rsplit(",!", 1)[1]) if ",!" in si else 0
         d = c02.replay_dict(sc, sp, si, sm, sv)
         d["impurity_bits"] = bits
-        d["meaning"] = "1: render through a fresh cache differs from the fresh render; 2: cache reused with another value differs from that value's fresh render; 4: render into a pre-filled stream disturbed the prefix or differs; 8: the value changed; 16: the template text changed"
+        d["meaning"] = "1: render through a fresh cache differs from the fresh render; 2: cache reused with another value differs from that value's fresh render; 4: render into a pre-filled stream disturbed the prefix or differs; 8: the value changed; 16: the template text changed; 32: render through a copy of the cache (copy-constructed / copy-assigned), or through the original after it was copied, differs; 64: render through the moved cache differs"
         rep.violation(d)
         found += 1
     nfail, nmis = 0, 0
